@@ -246,6 +246,19 @@ let run_script (si : int) (ops : opblock list) (do_wf : bool) (do_tree : bool) (
             | ["remove"; dh; p] -> Some (Tree.TRemove (n_of_string dh, str_of_hex p), simple ())
             | ["rename"; dh; sp; dh2; dp] ->
               let dst = str_of_hex dp in
+              (* marker for the known class "rename to another spelling of the entry's own name" *)
+              (match Tree.dir_of_handle !ts (n_of_string dh), Tree.dir_of_handle !ts (n_of_string dh2) with
+               | Some d0, Some e0 ->
+                 let (spre, sfin) = Tree.split_last (Tree.path_comps (str_of_hex sp)) in
+                 let (dpre, dfin) = Tree.split_last (Tree.path_comps dst) in
+                 (match Tree.walk_dirs upper !oem !ts d0 spre, Tree.walk_dirs upper !oem !ts e0 dpre with
+                  | Tree.WDir sd, Tree.WDir dd ->
+                    (match Tree.lookup_in upper !oem !ts sd sfin, Tree.lookup_in upper !oem !ts dd dfin with
+                     | Tree.LNode n, Tree.LNode m when n.Tree.t_id = m.Tree.t_id && n.Tree.t_name <> dfin ->
+                       Printf.printf "K %d respell\n" oi
+                     | _ -> ())
+                  | _ -> ())
+               | _ -> ());
               Some (Tree.TRename (n_of_string dh, str_of_hex sp, n_of_string dh2, dst, alias_for dh2 dst), simple ())
             | ["list"; dh] ->
               let r = if okp then
